@@ -280,11 +280,16 @@ def run (ctx):
   appends = g.nodes_with_call(lambda c: call_name(c) == 'append' and norm(c.func.value) == PS)
   extends = g.nodes_with_call(lambda c: call_name(c) in ('extend', 'insert') and norm(c.func.value) == PS)
   repl = []; clears = []
+  # "nothing in progress" is the value the constructor gives the attribute: the empty list, or None
+  ini_ = con.methods.get('__init__')
+  ini_v = [v for t, v, st, k in q.stores_in(ini_.node) if norm(t) == PS] if ini_ is not None else []
+  IDLE_NONE = bool(ini_v) and all(isinstance(v, ast.Constant) and v.value is None for v in ini_v)
+  IDLE = None if IDLE_NONE else []
   for t, v, st, k in q.stores_in(isr.node):
     if norm(t) == PS:
       n = q.enclosing_stmt_node(g, st)
       if isinstance(v, ast.List) and len(v.elts) == 1 and norm(v.elts[0]) == ofp: repl.append(n)
-      elif isinstance(v, ast.List) and not v.elts: clears.append(n)
+      elif (isinstance(v, ast.List) and not v.elts and not IDLE_NONE) or (IDLE_NONE and isinstance(v, ast.Constant) and v.value is None): clears.append(n)
       else: ctx.bad('R-EFFECT', isr, "pending-parts store `%s`" % norm(st), "the pending part list is set to something other than [] or [%s]" % ofp, (mod, st), 'D3')
   hcalls = g.nodes_with_call(lambda c: isinstance(c.func, ast.Name) and c.func.id == 'handler')
   ctx.floor('reassembly sites (append, replace, clear, handler)', len(appends) + len(repl) + len(clears) + len(hcalls), 3)
@@ -297,7 +302,9 @@ def run (ctx):
     ms.append((lambda e: isinstance(e, ast.Compare) and norm(e.left) == 'len(%s)' % PS and isinstance(e.ops[0], ast.NotEq), pending))
     ms.append((lambda e: isinstance(e, ast.Compare) and norm(e.left) == 'len(%s)' % PS and isinstance(e.ops[0], (ast.Eq,)), not pending))
     ms.append((lambda e: isinstance(e, ast.Compare) and norm(e.left) == 'len(%s)' % PS and isinstance(e.ops[0], (ast.Gt,)), pending))
-    ex = {ofp + '.is_last_reply': last, PS: ['<part>'] if pending else []}
+    ex = {ofp + '.is_last_reply': last, PS: ['<part>'] if pending else IDLE}
+    ms.append((lambda e: isinstance(e, ast.Compare) and norm(e.left) == PS and isinstance(e.ops[0], ast.IsNot) and norm(e.comparators[0]) == 'None', pending))
+    ms.append((lambda e: isinstance(e, ast.Compare) and norm(e.left) == PS and isinstance(e.ops[0], ast.Is) and norm(e.comparators[0]) == 'None', not pending))
     ms.append((lambda e: isinstance(e, ast.Compare) and isinstance(e.ops[0], ast.NotIn) and norm(e.left) == ofp + '.type', False))
     ms.append((lambda e: isinstance(e, ast.Compare) and isinstance(e.ops[0], ast.In) and norm(e.left) == ofp + '.type', True))
     return q.Env(ex, ms)
@@ -308,7 +315,7 @@ def run (ctx):
   def after (xid_eq, type_eq, pending, last):
     P0 = q.Rec(name='P0', xid=7, type=T_FLOW if type_eq else T_PORT, is_last_reply=False)
     NEWP = q.Rec(name='NEW', xid=7 if xid_eq else 8, type=T_FLOW, is_last_reply=last)
-    ex = {ofp: NEWP, PS: [P0] if pending else []}
+    ex = {ofp: NEWP, PS: [P0] if pending else IDLE}
     outs = set()
     for p_, e_ in q.paths_under(repo, mod, g, q.Env(ex, []), g.entry, [g.exit], con, limit=80):
       v_ = e_.exact.get(PS, '?')
@@ -365,7 +372,7 @@ def run (ctx):
     def on_node (n, e):
       for c in q.node_calls(n):
         if isinstance(c.func, ast.Name) and c.func.id == 'handler' and len(c.args) > 1:
-          try: lst = q.eval_env2(repo, mod, c.args[1], e, con); seen.append((tuple(x['name'] if isinstance(x, q.Rec) else '?' for x in lst), tuple(e.exact.get(PS, ('?',)))))
+          try: lst = q.eval_env2(repo, mod, c.args[1], e, con); seen.append((tuple(x['name'] if isinstance(x, q.Rec) else '?' for x in lst), tuple(e.exact.get(PS, ('?',)) or ())))
           except Exception: seen.append('?')
     q.paths_under(repo, mod, g, q.Env({ofp: NEWP, PS: [P0]}, [((lambda e: isinstance(e, ast.Subscript) and 'statsHandlerMap' in norm(e.value)), 'H')], hook), g.entry, [g.exit], con, limit=80, on_node=on_node)
     return seen
@@ -419,6 +426,26 @@ def run (ctx):
         for c in q.node_calls(n_):
           if call_name(c) in ('raiseEventNoErrors', 'raiseEvent') and len(c.args) >= 4 and isinstance(c.func, ast.Attribute):
             eff.append((n_, norm(c.func.value), c.args[3], 1))
+          elif isinstance(c.func, ast.Name) and not c.keywords and not any(isinstance(a_, ast.Starred) for a_ in c.args):
+            # a plain helper function (possibly imported from another module of the package) that raises on what it is given:
+            # `helper(con, Event, *args)` whose body calls `con.raiseEventNoErrors(Event, *args)`
+            from ..model import Func as _Func
+            m_ = mod.lookup(c.func.id)
+            if not isinstance(m_, _Func) or m_.cls is not None: continue
+            pos_ = [a_.arg for a_ in m_.node.args.args]; va_ = m_.node.args.vararg.arg if m_.node.args.vararg else None
+            if len(c.args) < len(pos_) or (len(c.args) > len(pos_) and va_ is None): continue
+            actual = dict(zip(pos_, c.args)); rest_ = list(c.args[len(pos_):]); gm_ = q.cfg_of(m_)
+            for c2 in calls_in(m_.node):
+              if call_name(c2) in ('raiseEventNoErrors', 'raiseEvent') and isinstance(c2.func, ast.Attribute) and isinstance(c2.func.value, ast.Name) and c2.func.value.id in actual:
+                full_ = []
+                for a_ in c2.args:
+                  if isinstance(a_, ast.Starred) and isinstance(a_.value, ast.Name) and a_.value.id == va_: full_ += rest_
+                  elif isinstance(a_, ast.Name) and a_.id in actual: full_.append(actual[a_.id])
+                  else: full_.append(None)
+                if len(full_) >= 4 and full_[3] is not None:
+                  iv2 = gm_.interval(lambda x_, c2=c2: any(y_ is c2 for y_ in q.node_calls(x_)))
+                  eff.append((n_, norm(actual[c2.func.value.id]), full_[3], iv2[1] if iv2 else 9))
+                  ctx.analysed(m_)
           elif isinstance(c.func, ast.Attribute) and isinstance(c.func.value, ast.Name) and not c.keywords:
             K_ = mod.lookup(c.func.value.id)
             m_ = K_.find_method(c.func.attr) if hasattr(K_, 'find_method') else None
